@@ -22,26 +22,35 @@ Fixpoint params_of (c : N) (h : list obs) : option cparams :=
       end
   end.
 
-(* the specification's view of connection c: as accepted, then the session expiry updates of its DISCONNECT *)
+(* connection c is registered under id and open in a snapshot *)
+Definition live_in (c : N) (id : bytes) (sn : snap) : bool :=
+  match find_client id (sn_clients sn) with Some r => (sc_conn r =? c) && sc_open r | None => false end.
+
+(* the specification's view of connection c: as accepted, then the session expiry update of its
+   DISCONNECT (a DISCONNECT counts only while the connection is registered and open) *)
+Definition view_step (k : caps) (c : N) (cur : option sconn) (b : obs) : option sconn :=
+  match b_op b with
+  | OConnect c' _ p _ id =>
+      if c' =? c then match success_connack (pkts_to c (b_outs b)) with Some _ => Some (x_new k c p id) | None => cur end
+      else cur
+  | ODisconnect c' _ _ sei =>
+      if c' =? c then
+        match cur with
+        | Some x => if live_in c (x_id x) (b_pre b)
+                    then Some (x_with x (if x_ver x =? 5 then req_after k x sei else x_req x) (x_open x) (x_end x) (x_wst x))
+                    else cur
+        | None => None end
+      else cur
+  | _ => cur
+  end.
 Fixpoint view_of (k : caps) (c : N) (cur : option sconn) (h : list obs) : option sconn :=
   match h with
   | [] => cur
-  | b :: r =>
-      let cur' :=
-        match b_op b with
-        | OConnect c' _ p _ id =>
-            if c' =? c then match success_connack (pkts_to c (b_outs b)) with Some _ => Some (x_new k c p id) | None => cur end
-            else cur
-        | ODisconnect c' _ _ sei =>
-            if c' =? c then
-              match cur with
-              | Some x => Some (x_with x (if x_ver x =? 5 then req_after k x sei else x_req x) (x_open x) (x_end x) (x_wst x))
-              | None => None end
-            else cur
-        | _ => cur
-        end in
-      view_of k c cur' r
+  | b :: r => view_of k c (view_step k c cur b) r
   end.
+
+(* the history up to and including step i *)
+Definition upto (i : nat) (h : list obs) : list obs := firstn (S i) h.
 
 (* the delay the broker stores for the will at CONNECT (clients.go ParseConnect) *)
 Definition stored_delay (p : cparams) : N :=
@@ -107,7 +116,7 @@ Fixpoint overwritten_by_late (c : N) (id : bytes) (h0 h : list obs) : bool :=
 
 Definition KF_C16_takeover_delayed (k : caps) (h : list obs) (v : viol) : bool :=
   (((v_tag v =? V16_missing_takeover) || (v_tag v =? V16_cancelled) || (v_tag v =? V16_once)) &&
-   late_registrant (v_conn v) h) ||
+   late_registrant (v_conn v) (upto (v_step v) h)) ||
   (((v_tag v =? V16_missing) || (v_tag v =? V16_missing_takeover) || (v_tag v =? V16_late)) &&
    (wiped_by_late (v_conn v) (v_id v) h h || overwritten_by_late (v_conn v) (v_id v) h h)).
 
@@ -117,8 +126,19 @@ Definition KF_C16_takeover_delayed (k : caps) (h : list obs) (v : viol) : bool :
    ends.  clients.go ParseConnect 251-254 / server.go sendLWT; pinned by TestServerSendLWTDelayed. *)
 Definition KF_C16_delay_uncapped (k : caps) (h : list obs) (v : viol) : bool :=
   ((v_tag v =? V16_missing) || (v_tag v =? V16_late) || (v_tag v =? V16_once)) &&
-  match params_of (v_conn v) h, view_of k (v_conn v) None h with
+  match params_of (v_conn v) (upto (v_step v) h), view_of k (v_conn v) None (upto (v_step v) h) with
   | Some p, Some x => cp_willflag p && (eff k x <? stored_delay p)
+  | _, _ => false
+  end.
+
+(* C16-6: the same root cause in the other direction.  The stored delay is fixed at CONNECT as
+   min(will delay, session expiry of the CONNECT); a DISCONNECT with Will Message (0x04, or another
+   reason but 0x00) that RAISES the session expiry does not restore the delay: the will is published
+   before min(will delay, session end).  clients.go ParseConnect 251-254 / server.go sendLWT. *)
+Definition KF_C16_delay_fixed_at_connect (k : caps) (h : list obs) (v : viol) : bool :=
+  (v_tag v =? V16_early) &&
+  match params_of (v_conn v) (upto (v_step v) h), view_of k (v_conn v) None (upto (v_step v) h) with
+  | Some p, Some x => cp_willflag p && (stored_delay p <? minN (x_delay x) (eff k x))
   | _, _ => false
   end.
 
@@ -145,6 +165,7 @@ Definition KF_C16_delayed_retain_gone (k : caps) (h : list obs) (v : viol) : boo
 Definition kf_of (k : caps) (h : list obs) (v : viol) : option bytes :=
   if KF_C16_takeover_delayed k h v then Some (tag "KF_C16_takeover_delayed")
   else if KF_C16_delay_uncapped k h v then Some (tag "KF_C16_delay_uncapped")
+  else if KF_C16_delay_fixed_at_connect k h v then Some (tag "KF_C16_delay_fixed_at_connect")
   else if KF_C16_clean_reconnect k h v then Some (tag "KF_C16_clean_reconnect")
   else if KF_C16_delayed_retain_gone k h v then Some (tag "KF_C16_delayed_retain_gone")
   else None.
